@@ -13,7 +13,7 @@ from vf import strategies as S
 from vf.encode import encode_file
 from vf.expect import expected_content
 from vf.observe import compare_values, compare_scalars, RecordingStream
-from vf.model import split_path
+from vf.model import split_path, tsize
 from props.C03 import compare_parts
 from props.C04 import slice_vals
 
@@ -315,6 +315,8 @@ def _to_vals(t, arr):
 
 
 def check(case, rec):
+    if case.get('diff'):
+        return check_diff(case, rec)
     exe = Executor(case['fs'])
     for op in case['ops']:
         exe.apply(op)
@@ -457,13 +459,159 @@ def _run_machines(n_total, file_strategy, steps):
     return fn
 
 
+# ---------------------------------------------------------------------------------------------
+# model-free variant: every operation on the shared open file against the same operation on a freshly opened file
+
+def _norm(x):
+    from vf.observe import le_bytes, raw_ts_pairs
+    from nptdms.timestamp import TimestampArray, TdmsTimestamp
+    if isinstance(x, TimestampArray):
+        return ('tsarray', raw_ts_pairs(x))
+    if isinstance(x, TdmsTimestamp):
+        return ('ts', x.seconds, x.second_fractions)
+    if isinstance(x, np.ndarray):
+        if x.dtype == object:
+            return ('objarray', list(x))
+        return ('ndarray', x.dtype.newbyteorder('=').str, tuple(x.shape), le_bytes(x))
+    if isinstance(x, (list, tuple)):
+        return (type(x).__name__, [_norm(v) for v in x])
+    if isinstance(x, np.generic):
+        return ('scalar', x.dtype.str, x.tobytes())
+    return (type(x).__name__, repr(x))
+
+
+def _apply_diff_op(tf, paths, op, iters):
+    from vf.model import split_path
+    kind = op[0]
+    p = paths[op[1] % len(paths)]
+    g, c = split_path(p)
+    ch = tf[g][c]
+    n = len(ch)
+    if kind == 'index':
+        if n == 0:
+            return None
+        return ch[op[2] % (2 * n) - n]
+    if kind == 'slice':
+        a, b = op[2] % (n + 3) - 1, op[3] % (n + 3) - 1
+        return ch[a:b:op[4]]
+    if kind == 'window':
+        return ch.read_data(op[2] % (n + 2), None if op[3] is None else op[3] % (n + 2))
+    if kind == 'chunk':
+        # the k-th chunk of a fresh channel stream, its content read several times from the same chunk object
+        k = op[2]
+        for j, chunk in enumerate(ch.data_chunks()):
+            if j == k:
+                def snap(x):
+                    return x.copy() if isinstance(x, np.ndarray) else list(x)       # a copy: later accesses must not matter
+                first = snap(chunk[:])
+                return [first, len(chunk), list(chunk)[:2], snap(chunk[:]), snap(chunk[0:1])]
+        return None
+    raise KeyError(kind)
+
+
+def check_diff(case, rec):
+    from nptdms import TdmsFile
+    if case['kind'] == 'scaled':
+        from props.C13 import build_file
+        fs, _graph = build_file(case['scaled'])
+        rec.label('scaled_channel')
+    else:
+        fs = case['fs']
+        segs = fs['segments']
+        k = case['trim'][0] % len(segs)
+        size = sum(nn * tsize(t) for (_p, t, nn) in segs[k].get('active') or []) * segs[k].get('nchunks', 0)
+        if size > 1:
+            fs = {'segments': [dict(sg, trim_raw=1 + case['trim'][1] % (size - 1)) if i == k else sg
+                               for i, sg in enumerate(segs)]}
+            rec.label('short_final_chunk_%s' % ('in_last_segment' if k == len(segs) - 1 else 'in_middle_segment'))
+    data, _i, _l = encode_file(fs)
+    paths = sorted(set(p for sg in fs['segments'] for (p, _t, _n) in sg.get('active') or []))
+    if not paths:
+        return
+    rec.nontrivial(len(case['ops']) >= 2)
+    ok, shared = rec.guard('open', lambda: TdmsFile.open(io.BytesIO(data), raw_timestamps=True))
+    if not ok:
+        return
+    try:
+        for i, op in enumerate(case['ops']):
+            rec.label('op=' + op[0])
+            try:
+                with TdmsFile.open(io.BytesIO(data), raw_timestamps=True) as fresh:
+                    want = ('ok', _norm(_apply_diff_op(fresh, paths, op, None)))
+            except Exception as e:      # noqa
+                want = ('raised', type(e).__name__)
+            try:
+                got = ('ok', _norm(_apply_diff_op(shared, paths, op, None)))
+            except Exception as e:      # noqa
+                got = ('raised', type(e).__name__)
+            if got != want:
+                rec.violation('history:' + op[0], 'operation %d %r after %r gives %s, on a freshly opened file %s' % (
+                    i, op, case['ops'][:i], str(got)[:160], str(want)[:160]))
+                return
+            if op[0] == 'chunk' and got[0] == 'ok' and got[1][0] == 'list' and len(got[1][1]) == 5:
+                # one delivered chunk object read again: it delivers what it delivered the first time
+                first, _n, _items, again, head = got[1][1]
+                if again != first:
+                    rec.violation('history:chunk_reaccess', 'operation %d %r: reading the same chunk object a second time gives %s, '
+                                  'the first time %s' % (i, op, str(again)[:120], str(first)[:120]))
+                    return
+    finally:
+        shared.close()
+
+
+@st.composite
+def diff_cases(draw):
+    ops = []
+    for _ in range(draw(st.integers(2, 10))):
+        kind = draw(st.sampled_from(['index', 'index', 'slice', 'window', 'chunk']))
+        ci = draw(st.integers(0, 3))
+        if kind == 'index':
+            ops.append(['index', ci, draw(st.one_of(st.sampled_from([-1, 0, 1]), st.integers(0, 200)))])
+        elif kind == 'slice':
+            ops.append(['slice', ci, draw(st.integers(0, 60)), draw(st.integers(0, 60)), draw(st.sampled_from([None, 1, 2, -1]))])
+        elif kind == 'window':
+            ops.append(['window', ci, draw(st.integers(0, 60)), draw(st.one_of(st.none(), st.integers(0, 60)))])
+        else:
+            ops.append(['chunk', ci, draw(st.integers(0, 3))])
+    if draw(st.integers(0, 2)) == 0:
+        from props.C13 import cases as c13_cases
+        return {'diff': True, 'kind': 'scaled', 'scaled': draw(c13_cases(noop=True)), 'ops': ops}
+    fs = draw(S.file_spec(min_segments=1, max_segments=3, min_channels=2, max_channels=3, max_n=4, max_chunks=3, props=False,
+                          zero_n=False, absent=False, types=['i8', 'i16', 'i32', 'u64', 'f32', 'f64', 'ts'], values='unique',
+                          names='simple', nodata_entries=False, interleaved=draw(st.booleans())))
+    nseg = len(fs['segments'])
+    if draw(st.booleans()):
+        # the history starts at the end of a channel (the last value may sit in the incomplete chunk)
+        ops.insert(0, ['index', draw(st.integers(0, 3)), -1])
+    return {'diff': True, 'kind': 'trim', 'fs': fs,
+            'trim': [draw(st.sampled_from([nseg - 1, nseg - 1, 0, 1])), draw(st.integers(0, 10 ** 6))], 'ops': ops}
+
+
+def _every_scale_type():
+    from props.C03 import sensor_scaled_cases
+    inner = sensor_scaled_cases()
+    ops = [['chunk', 0, 0], ['chunk', 0, 1], ['index', 0, 1], ['chunk', 0, 0], ['window', 0, 1, 2], ['chunk', 0, 2]]
+
+    def fn(shard, nshards):
+        for case in inner(shard, nshards):
+            yield {'diff': True, 'kind': 'scaled', 'scaled': case, 'ops': ops}
+    return fn
+
+
 def jobs(tier):
     if tier == 'quick':
         return [Job('histories', 'custom', _run_machines(6000, _file_strategy, 30)),
+                Job('chunk_reaccess_every_scale_type', 'enum', _every_scale_type(), exhaustive=True, check=check_diff,
+                    note='every scale type of the C14 matrix x 3 raw types: chunk objects read repeatedly, between other reads'),
+                Job('against_fresh_file', 'hyp', diff_cases, n=2500, check=check_diff,
+                    note='files with an incomplete final chunk in some segment, and scaled channels: each operation of a short '
+                         'history (incl. repeated access to one chunk object) against the same operation on a freshly opened file'),
                 Job('long_file_histories', 'custom', _run_machines(48, _long_strategy, 20)),
                 Job('twin_offset_table_histories', 'custom', _run_machines(64, _twin_strategy, 20)),
                 Job('daqmx_histories', 'custom', _run_machines(800, _daqmx_strategy(), 25))]
     return [Job('histories', 'custom', _run_machines(150000, _file_strategy, 50)),
+            Job('chunk_reaccess_every_scale_type', 'enum', _every_scale_type(), exhaustive=True, check=check_diff),
+            Job('against_fresh_file', 'hyp', diff_cases, n=80000, check=check_diff),
             Job('long_file_histories', 'custom', _run_machines(3000, _long_strategy, 40)),
             Job('twin_offset_table_histories', 'custom', _run_machines(3000, _twin_strategy, 40)),
             Job('daqmx_histories', 'custom', _run_machines(30000, _daqmx_strategy(), 40))]
